@@ -151,7 +151,9 @@ def route_lines(app):
                 st, h, b = app.call(method, concrete(route, method), hdr(hv, 'admin+service', withbody), body)
                 lines.append({'kind': 'route', 'route': route, 'method': method, 'vkind': vkind,
                               'v': v, 'status': st, 'hver': _ver_of(h),
-                              'vary': 'openstack-api-version' in h.get('vary', '').lower()})
+                              'vary': 'openstack-api-version' in h.get('vary', '').lower(),
+                              'cache': 'last-modified' in h and h.get('cache-control') == 'no-cache',
+                              'anycache': 'last-modified' in h or 'cache-control' in h})
     app.restore('surf')
     return lines
 
@@ -212,6 +214,27 @@ def feature_probes(app):
         st, h, j = call('GET', ac, v)
         ars = (j or {}).get('allocation_requests') or [{}]
         return ars[0]
+    def entry_body(v, cgen=True, ctype=True, mappings=False, p='p1'):
+        b = {'allocations': {U(p): {'resources': {'VCPU': 1}}}, 'project_id': 'proj1', 'user_id': 'user1'}
+        if v >= 28 and cgen:
+            b['consumer_generation'] = None
+        if v >= 38 and ctype:
+            b['consumer_type'] = 'INSTANCE'
+        if mappings:
+            b['mappings'] = {'': [U(p)]}
+        return b
+
+    def post_alloc(v, **kw):
+        return call('POST', '/allocations', v, {U('c2'): entry_body(v, **kw)})[0]
+
+    def reshape(v, **kw):
+        b = {'inventories': {U('p2'): {'resource_provider_generation': _gen(app, 'p2'),
+                                       'inventories': {'VCPU': {'total': 4}}}},
+             'allocations': {U('c2'): entry_body(max(v, 28), p='p2', **kw)}}
+        if v < 38:
+            b['allocations'][U('c2')].pop('consumer_type', None)
+        return call('POST', '/reshaper', v, b)[0]
+
     def has_code(resp, status):
         st, h, j = resp
         if st != status:
@@ -258,6 +281,18 @@ def feature_probes(app):
         'error_code_inventory_inuse': lambda v: has_code(call('DELETE', rp1 + '/inventories/VCPU', v), 409),
         'error_code_cannot_delete_parent': lambda v: has_code(call('DELETE', rp1, v), 409),
         'error_code_provider_inuse': lambda v: provider_inuse(v),
+        'alloc_post_consumer_generation_required': lambda v: post_alloc(v, cgen=False) == 400 and post_alloc(v) == 204,
+        'alloc_post_consumer_type_required': lambda v: post_alloc(v, ctype=False) == 400 and post_alloc(v) == 204,
+        'alloc_post_mappings': lambda v: post_alloc(v, mappings=True) == 204,
+        'reshape_consumer_type_required': lambda v: reshape(v, ctype=False) == 400 and reshape(v) == 204,
+        'reshape_mappings': lambda v: reshape(v, mappings=True) == 204,
+        'usages_grouped_by_type': lambda v: any(isinstance(d, dict) and 'consumer_count' in d for d in
+                                                (call('GET', '/usages?project_id=proj1', v)[2] or {}).get('usages', {}).values()),
+        'cache_headers_write_with_body': lambda v: (lambda r: r[0] == 200 and 'last-modified' in r[1] and r[1].get('cache-control') == 'no-cache')(
+            call('PUT', rp2 + '/inventories/VCPU', v, dict(INV_JSON(4, 0), resource_provider_generation=_gen(app, 'p2')))),
+        'cache_headers_absent_on_write_with_body': lambda v: (lambda r: r[0] == 200 and 'last-modified' not in r[1] and 'cache-control' not in r[1])(
+            call('PUT', rp2 + '/inventories/VCPU', v, dict(INV_JSON(4, 0), resource_provider_generation=_gen(app, 'p2')))),
+        'ac_group_policy': ok('GET', ac + '&group_policy=none'),
         'rp_list_repeated_member_of': ok('GET', '/resource_providers?member_of=%s&member_of=%s' % (agg1, agg1)),
         'ac_granular': ok('GET', '/allocation_candidates?resources1=VCPU:1'),
         'inv_reserved_equals_total': lambda v: call('PUT', rp2 + '/inventories/VCPU', v,
